@@ -23,7 +23,7 @@ PER_SIGNATURE = 3
 
 
 def run_trace(ctx, path, label):
-    t = ctx.tlc("BuiltinsTrace", files=[("trace.ndjson", path)], workers=1, label=label, timeout=1500, heap="6g")
+    t = ctx.tlc("BuiltinsTrace", files=[("trace.ndjson", path)], workers=1, label=label, timeout=1500, heap="12g")
     res = t.printed("RESULT")
     if not res:
         raise vlib.MachineryError("BuiltinsTrace printed no RESULT:\n" + t.tail())
@@ -83,7 +83,7 @@ def run(ctx):
             raise vlib.MachineryError("non-vacuity config %s did not produce a counterexample:\n%s" % (c, rr.tail(20)))
 
     # ------------------------------------------------------- code -> spec
-    n = 600000 if thorough else 120000
+    n = 1500000 if thorough else 120000
     p = ctx.harness(["builtins", "record", "--n", n, "--out", ctx.path("trace.ndjson"), "--cases", ctx.path("cases.ndjson")], timeout=1500)
     counts = json.loads(p.stdout.strip().splitlines()[-1])
     res = judge(ctx, rep, ctx.path("trace.ndjson"), ctx.path("cases.ndjson"), "BuiltinsTrace (%d evaluations)" % n)
